@@ -21,6 +21,10 @@ class Deadlock(BaseException):
     pass
 
 
+class Hang(BaseException):
+    """A blocking call without timeout did not return within a generous span of virtual time."""
+
+
 class SimThread:
     def __init__(self, sched, name, target=None, serial=0):
         self.sched = sched
@@ -215,7 +219,14 @@ class FakeThread:
     def join(self, timeout=None):
         if self._t.finished:
             return
-        self._sched.park(lambda: self._t.finished, timeout)
+        if timeout is not None:
+            self._sched.park(lambda: self._t.finished, timeout)
+            return
+        t0 = self._sched.clock.now()
+        while not self._t.finished:
+            self._sched.park(lambda: self._t.finished, 5.0)
+            if self._sched.clock.now() - t0 > 120.0:
+                raise Hang("Thread.join() has not returned after 120 s of virtual time")
 
     def is_alive(self):
         return self._t.started and not self._t.finished
